@@ -131,12 +131,28 @@ def opMatrix (j : Json) : R Json := do
   let n := acols.length
   pure (obj [("A", ofList ofRats (transpose n acols)), ("B", ofList ofRats (transpose n gcols))])
 
+/-- {"op":"validate","faces":[{"isRob":[b..],"basisOff":[q..],"basisDiag":[q..],"robOff":[q..]}..]} -> "ok" | NotImplementedError -/
+def opValidate (j : Json) : R Json := do
+  let fjs ← field j "faces" >>= jList pure
+  let bs : List BcFace ← fjs.mapM (fun fj => do
+    pure ⟨← field fj "isRob" >>= jList jBool, ← fRats fj "basisOff", ← fRats fj "basisDiag", ← fRats fj "robOff"⟩)
+  pure (if validate bs then Json.str "ok" else err "NotImplementedError")
+
+/-- {"op":"ndof","dim":d,"nc":n} -> n | NotImplementedError;  {"op":"assemble_matrix_rhs"} -> NotImplementedError -/
+def opNdof (j : Json) : R Json := do
+  match ndof (← fNat j "dim") (← fNat j "nc") with
+  | some n => pure (ofNat n)
+  | none => pure (err "NotImplementedError")
+
 def handle (j : Json) : R Json := do
   let op ← fStr j "op"
   match op with
   | "face" => opFace j
   | "resid" => opResid j
   | "matrix" => opMatrix j
+  | "validate" => opValidate j
+  | "ndof" => opNdof j
+  | "assemble_matrix_rhs" => pure (err "NotImplementedError")
   | _ => throw s!"unknown op {op}"
 
 def main : IO Unit := runPure handle
